@@ -496,7 +496,7 @@ def fault_oracle(run):
         for (i, name, lines, res) in ops:
             failed_at = None
             for j, l in enumerate(lines):
-                if l.startswith('X1') or l.startswith('X0') and False:
+                if l.split(' ')[0] in ('X0', 'X1', 'Xu'):
                     failed_at = j
                     break
             if failed_at is None:
@@ -523,7 +523,7 @@ def recovery_oracle(run, seed):
     for t, cid, head, ops in iter_real(run, suites=('fault', 'faultdense')):
         if len(ops) < 4 or [o[1] for o in ops[-3:]] != ['wake_up', 'update_frame', 'display_frame']:
             continue
-        if not any(l.startswith('X1') for o in ops[:-3] for l in o[2]):
+        if not any(l.split(' ')[0] in ('X0', 'X1', 'Xu') for o in ops[:-3] for l in o[2]):
             continue
         if ops[0][3] is None or not ops[0][3].startswith('OK'):
             continue        # the constructor failed: there is no driver to recover
@@ -557,7 +557,11 @@ def recovery_oracle(run, seed):
             for e in corr.frames_of(lines):
                 if e[0] == 'F' and e[1] in corr.FAM[fam]['plane']:
                     ram += ['C %02x' % e[1]] + e[2]
-            return corr.sem_project(lines, 'addr', fam), corr.sem_project(lines, 'power', fam), ram
+            # GetStatus (0x71, UC family) is sent once per poll of a busy wait: how often depends on the busy line (the
+            # world), not on what the driver remembers - it is not part of the recovered state
+            def nostat(ls):
+                return [l for l in ls if not (fam == 'uc' and l.strip() == 'C 71')]
+            return nostat(corr.sem_project(lines, 'addr', fam)), nostat(corr.sem_project(lines, 'power', fam)), ram
         for k in range(3):
             a = ops[-3 + k]
             b = ref[len(ref) - 3 + k] if len(ref) >= 3 else None
@@ -588,10 +592,13 @@ def check_C04(tier, seed, t0):
     cov['faulted_calls_checked'] = n1
     cov['recovery_suffixes_checked'] = n2
     cov['distinct_nontrivial'] = n1
-    cov['rule'] = ("fault suites: for every op of every panel, the k-th SPI transfer of the call (or of new) fails, for k at every command/parameter "
-                   "transfer, both ends and sampled interior points of each bulk burst; followed by wake_up; update_frame; display_frame. Compared with the "
-                   "model (results + frames); on the real traces: the failed transfer is the last SPI activity, the call returns Err, the recovery "
-                   "suffix equals that of a never-failed driver. distinct_nontrivial = calls in which the injected failure was actually reached")
+    cov['rule'] = ("fault suites: for every op of every panel, the k-th SPI transfer of the call (or of new) fails, for k at every command "
+                   "transfer of the call, the transfer after it, both ends, the middle and every chunk-size change of every data run, the last "
+                   "transfer and one beyond it - positions taken from the fault-free REAL trace of the same call (tools/vlib.py fault_plan), "
+                   "plus a fixed dense list in the thorough tier; followed by wake_up; update_frame; display_frame. Compared with the "
+                   "model (results + frames); on the real traces (failed command AND data transfers): the failed transfer is the last SPI "
+                   "activity, the call returns Err, the recovery suffix equals that of a never-failed driver (GetStatus polls of busy waits "
+                   "excluded: their number depends on the busy line). distinct_nontrivial = calls in which the injected failure was actually reached")
     return finish('C04', tier, seed, t0, proof, viol, cov,
                   ["theorems: fail-stop of Hal.expand for ALL traces and fault indices (HalProofs.expand_failstop) and the recovery theorem over every driver-field valuation the models can be left in (Proof/Recover.v)",
                    "12.48in: chip selects left asserted after a failed write are a known finding (C15_release_after_error_refuted)"])
